@@ -72,6 +72,41 @@ def appendToChunk (cks : List Chunk) (cid : Nat) (tss : List Int) : List Chunk :
 def listMin (l : List Int) (d : Int) : Int := l.foldl (fun a b => if b < a then b else a) d
 def listMax (l : List Int) (d : Int) : Int := l.foldl (fun a b => if a < b then b else a) d
 
+/-- `newChk` of `cindex.onWrite`: the chunk is new to the index — the source has no entry
+(`Generated.C07.onWriteUnknownSourceSetsNewChk`) or its last known chunk is another one -/
+def onWriteNewChk (m : CMap) (src : Src) (cid : Nat) : Bool :=
+  match alookup m src with
+  | none => onWriteUnknownSourceSetsNewChk
+  | some sc =>
+    match sc.getLast? with
+    | none => onWriteUnknownSourceSetsNewChk
+    | some last => decide (last.id ≠ cid)
+
+/-- what the background rebuilder leaves (`rebuildIndex`): `rebuildIndexInt` walks every record of the chunk and
+`res.update(rInfo)` widens the hull by the true minimum and maximum -/
+def rebuildHull (recs : List Int) (ci : ChkInfo) : ChkInfo :=
+  match recs with
+  | [] => ci
+  | t :: _ => ci.update (listMin recs t) (listMax recs t)
+
+/-- `cindex.onWrite` for a batch appended to a chunk that holds the records `before`, together with what it sets in
+motion: a chunk that is new to the index but not empty (`newChk && firstRec > 0`,
+`Generated.C07.onWriteNewChunkMidwayRebuilds`) is marked corrupted and rebuilt in the background — the state given here
+is the one after the rebuilder ran. This is the situation after a start without a usable snapshot when the first thing
+that touches a partition is a write. -/
+def cindexOnWriteR (m : CMap) (src : Src) (cid : Nat) (before batch : List Int) (mn mx : Int) : CMap :=
+  let m1 := cindexOnWrite m src cid mn mx
+  if onWriteNewChk m src cid && !before.isEmpty && onWriteNewChunkMidwayRebuilds then
+    match alookup m1 src with
+    | some sc =>
+      match sc.getLast? with
+      | some last => aset m1 src (sc.dropLast ++ [rebuildHull (before ++ batch) last])
+      | none => m1
+    | none => m1
+  else m1
+
+def chunkRecs (db : List Chunk) (cid : Nat) : List Int := ((db.find? (fun c => c.id == cid)).map (·.recs)).getD []
+
 /-- the loop of `Service.Write`: one journal write per chunk; `iwrapper`'s min/max are never reset, so they
 accumulate across the pieces of one call -/
 def writePieces (db : List Chunk) (cm : CMap) (src : Src) : List (Nat × List Int) → Option (Int × Int) → List Chunk × CMap
@@ -83,7 +118,7 @@ def writePieces (db : List Chunk) (cm : CMap) (src : Src) : List (Nat × List In
       let (mn0, mx0) := acc.getD (t, t)
       let mn := listMin tss mn0
       let mx := listMax tss mx0
-      writePieces (appendToChunk db cid tss) (cindexOnWrite cm src cid mn mx) src rest (some (mn, mx))
+      writePieces (appendToChunk db cid tss) (cindexOnWriteR cm src cid (chunkRecs db cid) tss mn mx) src rest (some (mn, mx))
 
 def setPoss (ps : List PPipe) (name : Bytes) (pm : PosMap) : List PPipe :=
   ps.map (fun p => if p.cfg.name == name then { p with poss := pm } else p)
@@ -177,5 +212,12 @@ def cutInsideSave (steps : List Step) (c : Cut) : Bool :=
 /-- F06 on a recovered server: the loaded index is stale for a chunk of `src` that grew since -/
 def staleFor (s : Srv) (src : Src) : Bool :=
   staleGrown ((alookup s.mem.cidx src).getD []) ((alookup s.disk.db src).getD [])
+
+/-- F06, narrow: the stale hull is the one the snapshot brought in at the last start (`loaded` = the index as loaded
+then) and nothing has touched the source's entry since — a hull created by `onWrite` after the start is not in the
+class -/
+def staleSnapshotFor (loaded : CMap) (s : Srv) (src : Src) : Bool :=
+  decide (alookup s.mem.cidx src = alookup loaded src) &&
+    staleGrown ((alookup loaded src).getD []) ((alookup s.disk.db src).getD [])
 
 end Logrange.Persist
